@@ -28,9 +28,9 @@ MAX_OBJS = 7
 # ------------------------------------------------------------------------------- random sequences
 class SeqGen:
     """Generates one operation sequence on line, looking at the observable state of the
-    implementation to make most calls meaningful.  avoid=True steers clear of the calls that
-    trigger the known findings that destroy well-formedness (so that every later step is still
-    judged by wf_b)."""
+    implementation to make most calls meaningful.  avoid=True steers clear of the one known
+    finding that destroys well-formedness (mutating a graph that a grammar uses as a rhs), so
+    that every later step is still judged by wf_b."""
     def __init__(self, rng, avoid, p_fail=0.3):
         self.rng, self.avoid, self.p_fail = rng, avoid, p_fail
         self.ex = U.Exec()
@@ -140,7 +140,7 @@ class SeqGen:
             if fail or not free:
                 x = r.random()
                 if att and x < 0.6: return ("RemoveNode", (h, r.choice(att)))
-                if att and x < 0.75 and not self.avoid:     # id of an attached node, other label
+                if att and x < 0.8:     # id of an attached node, other label
                     n = r.choice(att)
                     if U.n_id(n)[0] == "Explicit":
                         return ("RemoveNode", (h, node((U.n_label(n) + 1) % 3, U.n_id(n))))
@@ -157,7 +157,7 @@ class SeqGen:
                     l = elabel(U.el_name(x), U.el_ty(x), not U.el_term(x)) if r.random() < 0.5 else \
                         elabel(U.el_name(x), list(U.el_ty(x)) + [r.choice(NLS)], U.el_term(x))
                     if len(U.el_ty(l)) > 2: l = elabel(U.el_name(x), [], U.el_term(x)) if U.el_ty(x) else l
-            bad = (not self.avoid) and r.random() < 0.15
+            bad = r.random() < (0.3 if fail else 0.05)
             nas = [self.node_arg(g, lab, bad=bad and i == 0) for i, lab in enumerate(U.el_ty(l))]
             if mode == "type":
                 if nas and r.random() < 0.5: nas = nas[:-1]
@@ -169,7 +169,7 @@ class SeqGen:
             nm = r.choice(ENAMES)
             mode = r.choice(["dupid", "flags", "clash", "idint"]) if fail else "ok"
             b = self.bound(h, nm)
-            bad = (not self.avoid) and r.random() < 0.15
+            bad = r.random() < (0.3 if fail else 0.05)
             if b is not None and mode != "clash":
                 nas = [self.node_arg(g, lab, bad=bad and i == 0) for i, lab in enumerate(U.el_ty(b))]
                 t = U.el_term(b)
@@ -185,13 +185,10 @@ class SeqGen:
             if edges and not fail: return ("RemoveEdge", (h, r.choice(edges)))
             return ("RemoveEdge", (h, edge(elabel(0, [], True), [], EX(r.choice(EIDS + [7])))))
         if k == "SetExt":
-            bad = (not self.avoid) and r.random() < 0.2
-            nas = [self.node_arg(g, None, bad=bad and i == 0) for i in range(r.choice([0, 1, 1, 2]))]
+            bad = fail or r.random() < 0.05
+            nas = [self.node_arg(g, None, bad=bad and i == 0) for i in range(r.choice([0, 1, 1, 2] if not fail else [1, 2]))]
             return ("SetExt", (h, nas))
-        if k == "Copy":
-            if self.avoid and U.p_f13_copy_label_tables(["Copy", h], None, tolist(self.obs)):
-                return ("EqOp", (h, h))
-            return ("Copy", h)
+        if k == "Copy": return ("Copy", h)
         if k == "AddNodeLabel": return ("AddNodeLabel", (h, r.choice(NLS)))
         if k == "AddEdgeLabel":
             l = self.rand_label()
@@ -272,10 +269,7 @@ class SeqGen:
             l = self.rand_label()
             if not fail: l = self.consistent_label(h, l)
             return ("AddEdgeLabel", (h, l))
-        if k == "Copy":
-            if self.avoid and U.p_f13_copy_label_tables(["Copy", h], None, tolist(self.obs)):
-                return ("EqOp", (h, h))
-            return ("Copy", h)
+        if k == "Copy": return ("Copy", h)
         if k == "EqOp": return ("EqOp", (h, r.randrange(len(self.obs))))
         return self.choose_interp(h, g[1], g[2], k, fail)
 
@@ -393,15 +387,15 @@ def classify(code, ops, trace, origin):
         except Exception: okp = False
         if okp:
             return Violation("%s: %s" % (text, pred.__doc__.strip().replace("\n", " ")), case=case, observed=dict(result=res, after=post),
-                             oracle="wf_b / atomicity / copy oracle (Model.GraphAPI)", corr="C16_inv / C16_failure_atomic / C16_copy",
+                             oracle="wf_b (Model.GraphAPI)", corr="C16_inv_step (guard_wf = alias_ok fails)",
                              call=call, finding_key=key)
-        return Violation("%s, and the Coq guard blames a known class, but the harness predicate %s does not hold for this step"
+        return Violation("%s, and the Coq guard blames the known class, but the harness predicate %s does not hold for this step"
                          % (text, pred.__name__), case=case, observed=dict(result=res, after=post), call=call,
-                         oracle="wf_b", corr="C16_inv")
+                         oracle="wf_b", corr="C16_inv_step")
     if kind in (1, 5, 9):
         return Violation(text, case=case, observed=dict(result=res, before=pre, after=post),
-                         oracle={1: "wf_b", 5: "atomicity (C16_failure_atomic)", 9: "frame_ok / copy_match (C16_copy)"}[kind],
-                         corr="C16_inv / C16_failure_atomic / C16_copy", call=call)
+                         oracle={1: "wf_b", 5: "atomicity (C16_failure_atomic)", 9: "frame_ok / copy_match (C16_frame, C16_copy_observe)"}[kind],
+                         corr="C16_inv_step / C16_failure_atomic / C16_copy_observe", call=call)
     return Violation(text + " although no oracle rejects the implementation's state", case=case,
                      observed=dict(result=res, after=post), corr="corr:api-seq (Model.GraphAPI.step / observe)",
                      failing_input_found=False, call=call)
@@ -433,7 +427,7 @@ def run(tier, seed):
     n_exh = 0
     for ops in exhaustive(tier):
         add(ops, "exhaustive"); n_exh += 1
-    n_rand = 800 if tier == "quick" else 40000
+    n_rand = 700 if tier == "quick" else 40000
     hist = {}
     fails = steps = 0
     for i in range(n_rand):
@@ -450,7 +444,7 @@ def run(tier, seed):
             hist[op[0]] = hist.get(op[0], 0) + 1
             steps += 1; fails += (r[0] == "RErr")
     vals = [(ops, tr) for ops, tr, _ in cases]
-    codes, nk = run_model(API, vals, seed=seed, tag="apiseq", coq_sample=(15 if tier == "quick" else 60))
+    codes, nk = run_model(API, vals, seed=seed, tag="apiseq", coq_sample=(10 if tier == "quick" else 60))
     code_hist = {}
     for (ops, tr, origin), c in zip(cases, codes):
         if c == 0: continue
@@ -469,7 +463,7 @@ def run(tier, seed):
         if o.startswith("random"): lens[len(ops) // 10 * 10] = lens.get(len(ops) // 10 * 10, 0) + 1
     samp = [c for c in cases if c[2].startswith("random")]
     cov = dict(evaluations=len(cases), distinct_nontrivial=distinct,
-               rule="operation sequences over the small universe (3 node labels, 4 edge-label names x terminal/nonterminal x arity 0-2, 4 explicit node ids, 3 explicit edge ids, implicit ids, 2 domains, 2 factor tags): corpus of minimised failing sequences first; every sequence of <= 3 calls from a reduced universe of %d calls after 2 set-up calls (2 set-ups: Graph+HRG, FactorGraph+FGG; in the quick tier the second set-up only for sequences containing a copy); random sequences of 1-40 calls, ~30%% of calls designed to raise, 60%% of the sequences steering clear of the known well-formedness findings.  After EVERY call the full observable state of every live object and the result / exception kind are compared with the model and judged by wf_b, the atomicity oracle and the frame / copy oracle.  non-trivial = >= 3 calls, some graph ends up with a node, and some call raised or copied; distinct by the call sequence" % len(reduced_universe(tier)),
+               rule="operation sequences over the small universe (3 node labels, 4 edge-label names x terminal/nonterminal x arity 0-2, 4 explicit node ids, 3 explicit edge ids, implicit ids, 2 domains, 2 factor tags): corpus of minimised failing sequences first; every sequence of <= 3 calls from a reduced universe of %d calls after 2 set-up calls (2 set-ups: Graph+HRG, FactorGraph+FGG; in the quick tier the second set-up only for sequences containing a copy); random sequences of 1-40 calls, ~30%% of calls designed to raise (re-used node ids, clashing labels, wrong types, duplicate ids, unmapped domains, ...), 60%% of the sequences steering clear of the one known well-formedness finding (mutating a graph used as a rule's rhs).  After EVERY call the full observable state of every live object and the result / exception kind are compared with the model and judged by wf_b, the atomicity oracle and the frame / copy oracle.  non-trivial = >= 3 calls, some graph ends up with a node, and some call raised or copied; distinct by the call sequence" % len(reduced_universe(tier)),
                exhaustive_part="%d sequences" % n_exh, corpus_cases=n_corpus, random_sequences=n_rand,
                random_steps=steps, random_steps_raising=fails, op_histogram=hist, random_length_histogram=lens,
                verdict_code_histogram=code_hist, kernel_reevaluated=nk, harness_crashes=crashes,
@@ -479,23 +473,30 @@ def run(tier, seed):
     return cov, violations
 
 OPEN_ITEMS = [
-    "C16_copy_observe for grammars: 'the copy of an HRG/FGG shows what its original shows' (copy_match strict) is proved for Graph/FactorGraph copies only (C16_copy_observe_graph); for grammar copies ==, freshness and independence are proved, the observation-level statement is covered by the model correspondence and the copy oracle",
-    "rule_reg_ok (atomicity guard of add_rule/new_rule) is the exact semantic condition 'the raising call has not changed the tables', not a syntactic characterisation",
+    "guard_wf (= alias_ok) remains on C16_inv_step / C16_inv_reachable: HRG.add_rule keeps a reference to the caller's rhs graph (known finding c16_rule_rhs_alias_mutation, not repaired); all other statements (atomicity, copy incl. label tables, frame, ==) are unguarded",
     "C16_eq_refl/_sym/_trans are stated for families satisfying inv (the key-discipline-only versions graph_eqb_*/hrg_eqb_* are lemmas in Proofs/GraphAPI_eq.v)",
 ]
 
 def replay(path):
+    """exit 1 iff a violation reproduces; a case that only hits a known finding exits 0"""
     r = json.load(open(path))
     ops = [U.fromjson(o) for o in r["case"]["ops"]]
     tr, _ = U.run_sequence(ops)
     code = run_coq(API, [(ops, tr)], tag="replay")[0]
     for op, (res, _) in zip(ops, tr): print(tolist(op), "->", tolist(res))
     print("verdict code", code, "(kind %d at step %d)" % (code % 16, code // 16), U.CODE_TEXT.get(code % 16, ""))
-    return 1 if code else 0
+    if code == 0:
+        print("no violation"); return 0
+    v = classify(code, ops, tr, "replay")
+    known = [k for k in load_known() if k.get("property") == PID and k.get("status") == "known"]
+    if v.finding_key is not None and any(v.finding_key == k.get("match", {}).get("predicate") for k in known):
+        print("KNOWN-FINDING: property=%s %s" % (PID, v.finding_key)); return 0
+    print("VIOLATION reproduces:", v.what)
+    return 1
 
 MANIFEST = dict(
     level="proof",
-    text="Coq state-machine model of the construction/mutation API of fggs/fggs.py (Graph, FactorGraph, HRG, FGG; step/observe/wf_b) with theorems: well-formedness is an invariant of every call that satisfies an explicit guard (and refuted without it: F11, F13, remove_node by id, rhs aliasing), raising calls are atomic under a guard (refuted without: F12, add_rule, add_factor), copies are == and frame-independent, == is an equivalence. The model is tied to /repo by running both on the same call sequences (corpus, exhaustive <= 3 calls, random 1-40 calls) and comparing the full observable state and result after every call; the extracted wf_b / atomicity / frame / copy oracles judge every implementation state.",
-    note="Trusted: Coq kernel + vm_compute, extraction cross-checked on a sample, the Python executor that maps names and id()s to naturals. Known defects of /repo are reported as KNOWN-FINDING through specific predicates.",
+    text="Coq state-machine model of the construction/mutation API of fggs/fggs.py (Graph, FactorGraph, HRG, FGG; step/observe/wf_b) with theorems: well-formedness is an invariant of every call, successful or raising, except successful mutations of a graph that a grammar uses as a rule's rhs (explicit guard; refuted without it: the grammar keeps a reference to the caller's graph); every raising call leaves all objects unchanged (unconditional); a copy is ==, shows exactly what its original shows (label tables, domains, factors, rules) and is frame-independent of it; == is an equivalence that separates objects differing in nodes, edges, ext, rules or start. The model is tied to /repo by running both on the same call sequences (corpus, exhaustive <= 3 calls, random 1-40 calls) and comparing the full observable state and result after every call; the extracted wf_b / atomicity / frame / copy oracles judge every implementation state.",
+    note="Trusted: Coq kernel + vm_compute, extraction cross-checked on a sample, the Python executor that maps names and id()s to naturals. One known defect of /repo (rule rhs aliasing) is reported as KNOWN-FINDING through a specific predicate; the six classes repaired in /repo (349378f, 80c0f78, 068b525, 6c89611) are regression-checked: a recurrence is a VIOLATION.",
     technique="Coq proof (state-machine model + invariants) + model/implementation correspondence with verified oracles",
     design_ref="DESIGN.md section 6, C16")
